@@ -95,9 +95,65 @@ def h_roundtrip(n: int, k: int, s1: int, r1: int, s2: int, r2: int, t2: bool, ns
     return True
 
 
+REPS = (1, 22, 31, 39, '[38;5;9', 4, 53, 51, 11, 26, 7, '[58;5;1', 0)
+
+
+def h_sweep(f: int, y: int, shape: int):
+    """Free SGR code (0..256) next to / below / above a representative code, through render/re-parse and simplify()."""
+    v = pick(f, 0, 256)
+    if v is None:
+        return None
+    if v in (38, 48, 58):
+        return None                         # a bare introducer is not a well-formed group
+    r = choose(y, REPS)
+    if r is None:
+        return None
+    sh = pick(shape, 0, 3)
+    if sh is None:
+        return None
+    s = AnsiString('abc')
+    if sh == 0:
+        s.apply_formatting(v, 0, 1)
+        s.apply_formatting(r, 1, 2)
+    elif sh == 1:
+        s.apply_formatting(r, 0, 2)
+        s.apply_formatting(v, 1, 3)
+    elif sh == 2:
+        s.apply_formatting(v, 0, 3)
+        s.apply_formatting(r, 1, 2)
+    else:
+        s.apply_formatting(r, 0, 3)
+        s.apply_formatting(v, 1, 2)
+    tab = S(s, 3)
+    want = [term.red(x) for x in tab]
+    back = AnsiString(str(s))
+    if back.base_str != 'abc':
+        return ('reparse-text', str(s))
+    bt = S(back, 3)
+    for i in range(3):
+        if term.red(bt[i]) != want[i]:
+            return ('reparse-style', i, str(s), tab[i], bt[i], v, r)
+    c = s.copy()
+    c.simplify()
+    ct = S(c, 3)
+    for i in range(3):
+        if term.red(ct[i]) != want[i]:
+            return ('simplify-style', i, str(s), tab[i], ct[i], v, r)
+    first = str(c)
+    c.simplify()
+    if str(c) != first:
+        return ('simplify-not-idempotent', first, str(c))
+    if str(AnsiString(first)) != first:
+        return ('simplified-not-fixed-point', first)
+    if v not in term.KNOWN:
+        cover('unknown-code')
+    cover('swept')
+    return True
+
+
 BOUNDS = {
     'quick': 'values from <=2 apply steps at n=2 over a 14-setting alphabet (named, clear codes, 256/24-bit colours, ul_rgb pair, unknown verbatim 99, '
-             'multi-group verbatim 1;31, invalid verbatim 1m, trailing-separator verbatim, AnsiSetting object), all canonical ranges, topmost both; 1 step at n=3',
+             'multi-group verbatim 1;31, invalid verbatim 1m, trailing-separator verbatim, AnsiSetting object), all canonical ranges, topmost both; 1 step at n=3; free SGR code 0..256 against 13 representative codes in 4 span shapes',
     'thorough': '2 apply steps at n=3',
 }
 OUTSIDE = 'base texts containing ESC; values needing more builder steps; settings outside the alphabet'
@@ -109,6 +165,9 @@ def obligations(tier):
     obs = [selftest_ob()]
     obs.append(Ob('roundtrip/b1/n3', h_roundtrip, dict(n=3, k=1, s2=0, r2=0, t2=False), need=('reparsed', 'simplified', 'has-invalid'),
                   budget=600, bounds='n=3, 1 apply step', kinds=KINDS))
+    for y in range(len(REPS)):
+        obs.append(Ob('sweep/rep%d' % y, h_sweep, dict(y=y), need=('swept', 'unknown-code'), budget=900,
+                      bounds='free code 0..256 x representative %r x 4 span shapes' % (REPS[y],), kinds=KINDS))
     n2 = 2 if tier == 'quick' else 3
     for s1 in range(len(SIG)):
         if tier == 'quick':
